@@ -677,6 +677,10 @@ class SubFieldView(ArrayView):
             raise OverflowError(
                 f"value {np.max(value)} is greater than allowed (max: {self.max_value_allowed})"
             )
+        if np.min(value) < 0:
+            raise OverflowError(
+                f"value {np.min(value)} is negative, sub fields are unsigned"
+            )
         value = np.asarray(value)
         self.array[key] &= ~self.bit_mask
 
